@@ -182,12 +182,14 @@ func (d *Decoder) decodeValue(f field, t reflect.Type, ff reflect.Value) (n int,
 
 		n = 8
 
-		if l%8 != 0 {
-			l += 8 - l%8
+		// padded length is computed in 64 bits, so that it doesn't wrap around for l > 2^32-8
+		padded := int64(l)
+		if padded%8 != 0 {
+			padded += 8 - padded%8
 		}
 
-		_, err = io.CopyN(ioutil.Discard, d.r, int64(l))
-		n += int(l)
+		_, err = io.CopyN(ioutil.Discard, d.r, padded)
+		n += int(padded)
 
 		return
 	}
